@@ -212,6 +212,12 @@ func onePlan(ctx context.Context, rep *mon.Reporter, spec *gspec.GraphSpec, in g
 			rep.Violation(ID+"/interrupt-not-extractable", "the call failed with an interrupt from which ExtractInterruptInfo yields nothing: "+c.Out.Err.Error()+"\n"+extra(), wit)
 			return
 		}
+		// nothing in these histories is made to fail and the uninterrupted reference succeeds: a call
+		// either finishes the run or stops at an interrupt point, and then it must return the interrupt
+		if !c.Interrupted && (c.Out.Err != nil || c.Out.Panic != nil) {
+			rep.Violation(ID+"/call-failed-instead-of-returning-an-interrupt", fmt.Sprintf("call %d (paradigm %s) neither finished the run nor returned an error from which the interrupt information can be extracted: err=%v panic=%v\n%s", j, c.Para, c.Out.Err, c.Out.Panic, extra()), wit)
+			return
+		}
 		// ---- (4) store accesses
 		if withID {
 			if c.Interrupted && c.StoreSets != 1 {
